@@ -117,7 +117,28 @@ def w_manager(ctx, rng, i):
     ctx.count_case(("manager", d, kind, len(before)), nontrivial=True)
 
 
+def w_with_dims(ctx, rng, i):
+    """shape.with_dims(dims) is dimension slicing of the whole shape: the same as WithDims(dims).apply(shape)."""
+    import menpo.transform as mt
+    from vf.digest import diff
+    d = 3 if i % 3 else 2
+    cls = gen.SHAPE_CLASSES[(i // 3) % 8]
+    s = gen.shape(rng, cls, d=d, with_landmarks=int(rng.integers(0, 3)))
+    dims = ([[0, 1], [1, 2], [2, 0], [0, 2, 1], np.array([True, False, True])] if d == 3 else [[1, 0], [0, 1]])[rng.integers(0, 5 if d == 3 else 2)]
+    dg = digest(s)
+    a = s.with_dims(dims)
+    b = mt.WithDims(dims).apply(s)
+    ctx.tap("with_dims_wrapper", "calls"); ctx.tap("with_dims_wrapper", "checked")
+    why = diff(a, b)
+    if why:
+        ctx.fail("with_dims_differs_from_applying_the_dimension_slicing_transform", cls=cls, mech="landmarks" if "_landmarks" in why else "other", why=why)
+    if digest(s) != dg:
+        ctx.fail("with_dims_modified_the_shape", cls=cls)
+    ctx.count_case(("with_dims", cls, d, str(dims)), nontrivial=s.has_landmarks)
+
+
 WORKLOADS = [
+    Workload("with_dims", w_with_dims, quick=240, thorough=6000),
     Workload("cross_product", w_cross, quick=4000, thorough=250000),
     Workload("manager", w_manager, quick=400, thorough=20000),
 ]
